@@ -292,6 +292,12 @@ fn dfile_case(run: &mut Run, id: &str, lines: &[String]) {
         Ok(Ok(map)) => {
             run.line(id, format!("DFILE {req}"), dump(&map));
             run.count_n("dfile:objects", map.hit_objects.len() as u64);
+            if let Ok((n, names)) = crate::c06::float_leaves_finite(&map) {
+                run.count_n("wf:float-leaves-visited", n as u64);
+                for name in names {
+                    run.count(&format!("wf:float-field:{name}"));
+                }
+            }
             run.count_n("dfile:control-points", (map.timing_points.len() + map.difficulty_points.len() + map.effect_points.len()) as u64);
             if let Err(v) = wellformed(&map) {
                 run.fail("oracle:wellformed", "", id, v, text.clone());
@@ -756,6 +762,192 @@ fn gen_file(rng: &mut Rng, res: &[(u8, String)]) -> Vec<String> {
     lines.into_iter().map(|l| l.replace('\n', " ")).collect()
 }
 
+// ---------------------------------------------------------------------------------------------
+// the byte reader
+// ---------------------------------------------------------------------------------------------
+
+fn hex_bytes(b: &[u8]) -> String {
+    let mut o = String::with_capacity(1 + 2 * b.len());
+    o.push('x');
+    for x in b {
+        o.push_str(&format!("{x:02x}"));
+    }
+    o
+}
+
+fn dbytes_case(run: &mut Run, id: &str, kind: &str, bytes: &[u8], check_path: bool) {
+    run.count(&format!("dbytes:kind:{kind}"));
+    let repro = format!("from_bytes hex:{}", &hex_bytes(bytes)[1..]);
+    run.repro.insert(id.to_owned(), repro.clone());
+    let obs = match guarded(|| Beatmap::from_bytes(bytes)) {
+        Err(p) => {
+            run.fail("oracle:decode-panic", "", id, p, repro.clone());
+            "PANIC".to_owned()
+        }
+        Ok(Err(e)) => {
+            run.count("dbytes:io-error");
+            if e.kind() != std::io::ErrorKind::UnexpectedEof {
+                run.fail("oracle:unexpected-io-error-kind", "", id, format!("{e:?}"), repro.clone());
+            }
+            "ioerr".to_owned()
+        }
+        Ok(Ok(map)) => {
+            run.count("dbytes:ok");
+            run.count_n("dbytes:objects", map.hit_objects.len() as u64);
+            dump(&map)
+        }
+    };
+    run.line(id, format!("DBYTES {}", hex_bytes(bytes)), obs);
+    crate::c06::check_bytes(run, id, bytes, check_path);
+}
+
+const ODD_CHARS: [char; 18] = [
+    '上', 'Ċ', '\u{0A41}', '\u{0A0A}', '\u{220A}', 'é', 'ß', '字', '\u{1F600}', '\u{10000}', '\u{10FFFF}', '\u{FEFF}', '\u{FFFD}', '\u{85}', '\u{2028}', '\u{3000}', '\u{7FF}',
+    '\u{800}',
+];
+
+const BAD_UTF8: [&[u8]; 16] = [
+    &[0xC0, 0x80], &[0xC1, 0xBF], &[0xE0, 0x80, 0x80], &[0xE0, 0x9F, 0xBF], &[0xED, 0xA0, 0x80], &[0xED, 0xBF, 0xBF], &[0xF0, 0x8F, 0xBF, 0xBF], &[0xF4, 0x90, 0x80, 0x80],
+    &[0xF5, 0x80, 0x80, 0x80], &[0xFF], &[0x80], &[0xBF, 0xBF], &[0xE4, 0xB8], &[0xF0, 0x9F, 0x98], &[0xC3], &[0xE4, 0xB8, 0x0A],
+];
+
+fn encode16(text: &str, le: bool, bom: bool) -> Vec<u8> {
+    let mut b = Vec::new();
+    if bom {
+        b.extend_from_slice(if le { &[0xFF, 0xFE] } else { &[0xFE, 0xFF] });
+    }
+    for u in text.encode_utf16() {
+        b.extend_from_slice(&if le { u.to_le_bytes() } else { u.to_be_bytes() });
+    }
+    b
+}
+
+fn gen_bytes(rng: &mut Rng, res: &[(u8, String)]) -> (Vec<u8>, &'static str) {
+    let mut lines = gen_file(rng, res);
+    // some text lines with characters whose encodings contain 0x0A bytes, astral characters, BOMs
+    for _ in 0..rng.below(3) {
+        if !lines.is_empty() {
+            let k = rng.below(lines.len() as u64) as usize;
+            let c = *rng.pick(&ODD_CHARS);
+            let pos = rng.below(lines[k].chars().count() as u64 + 1) as usize;
+            let mut t: Vec<char> = lines[k].chars().collect();
+            t.insert(pos, c);
+            lines[k] = t.into_iter().collect();
+        }
+    }
+    let sep = *rng.pick(&["\n", "\n", "\r\n", "\r", "\n\n", "\n\r"]);
+    let mut text = String::new();
+    for (i, l) in lines.iter().enumerate() {
+        if i > 0 {
+            text.push_str(if rng.chance(1, 6) { *rng.pick(&["\n", "\r\n", "\r"]) } else { sep });
+        }
+        text.push_str(l);
+    }
+    if rng.chance(1, 2) {
+        text.push_str(sep);
+    }
+    let (mut b, kind): (Vec<u8>, &'static str) = match rng.below(9) {
+        0 | 1 => (text.clone().into_bytes(), "utf8"),
+        2 => {
+            let mut b = vec![0xEF, 0xBB, 0xBF];
+            b.extend_from_slice(text.as_bytes());
+            (b, "utf8-bom")
+        }
+        3 | 4 => (encode16(&text, true, true), "utf16le-bom"),
+        5 | 6 => (encode16(&text, false, true), "utf16be-bom"),
+        7 => (encode16(&text, rng.chance(1, 2), false), "utf16-no-bom"),
+        _ => {
+            let mut b = (*rng.pick(&[&[0xFF, 0xFE][..], &[0xFE, 0xFF][..], &[0xEF, 0xBB, 0xBF][..], &[0xEF, 0xBB][..], &[0xFF][..]])).to_vec();
+            b.extend_from_slice(text.as_bytes());
+            (b, "bom-on-utf8-text")
+        }
+    };
+    // byte-level damage
+    match rng.below(10) {
+        0 => {
+            let cut = rng.below(b.len() as u64 + 1) as usize;
+            b.truncate(cut);
+        }
+        1 => {
+            for _ in 0..rng.range(1, 4) {
+                if !b.is_empty() {
+                    let i = rng.below(b.len() as u64) as usize;
+                    b[i] = rng.below(256) as u8;
+                }
+            }
+        }
+        2 => {
+            for _ in 0..rng.range(1, 3) {
+                let i = rng.below(b.len() as u64 + 1) as usize;
+                let ins: &[u8] = *rng.pick(&BAD_UTF8);
+                b.splice(i..i, ins.iter().copied());
+            }
+        }
+        3 => {
+            // lone surrogates / stray newline bytes at an even offset
+            for _ in 0..rng.range(1, 3) {
+                let i = (rng.below(b.len() as u64 / 2 + 1) as usize) * 2;
+                let ins: &[u8] = *rng.pick(&[&[0x00, 0xD8][..], &[0xD8, 0x00][..], &[0x00, 0xDC][..], &[0xDC, 0x00][..], &[0x0A][..], &[0x0A, 0x0A][..], &[0x00][..]]);
+                let i = i.min(b.len());
+                b.splice(i..i, ins.iter().copied());
+            }
+        }
+        _ => {}
+    }
+    (b, kind)
+}
+
+fn bytes_cases(run: &mut Run, seed: u64, thorough: bool, only: Option<&str>, res: &[(u8, String)]) {
+    // every file of 0, 1 bytes and a grid of 2- and 3-byte files; BOM-only files; the UTF-16LE EOF error
+    let mut fixed: Vec<Vec<u8>> = vec![vec![]];
+    let pool = [0x00u8, 0x0A, 0x0D, 0x20, b'a', b'[', 0xEF, 0xBB, 0xBF, 0xFF, 0xFE, 0xD8, 0x80];
+    for a in pool {
+        fixed.push(vec![a]);
+        for b in pool {
+            fixed.push(vec![a, b]);
+            for c in [0x0Au8, 0x00, b'a', 0xBF, 0xFE] {
+                fixed.push(vec![a, b, c]);
+            }
+        }
+    }
+    for tail in [&[0x0A][..], &[0x0A, 0x00], &[0x00, 0x0A], &[0x41, 0x00, 0x0A], &[0x0A, 0x0A], &[0x0A, 0x00, 0x0A], &[0x0A, 0x4E, 0x0A, 0x00], &[0x41, 0x0A, 0x42, 0x00, 0x0A, 0x00]] {
+        for bom in [&[0xFF, 0xFE][..], &[0xFE, 0xFF], &[0xEF, 0xBB, 0xBF], &[]] {
+            let mut v = bom.to_vec();
+            v.extend_from_slice(tail);
+            fixed.push(v);
+        }
+    }
+    // a map where the 0x0A bytes inside UTF-16 code units matter
+    let text = "osu file format v14\n[Metadata]\nTitle:上 and \u{0A41}x\n[HitObjects]\n256,192,1000,1,0\n100,100,2000,1,2\n";
+    fixed.push(encode16(text, true, true));
+    fixed.push(encode16(text, false, true));
+    fixed.push(text.as_bytes().to_vec());
+    for (i, b) in fixed.iter().enumerate() {
+        let id = format!("dbytes-fixed-{i}");
+        if !wanted(only, &id) {
+            continue;
+        }
+        run.eval(Some(&format!("dbytes-fixed|{b:?}")));
+        dbytes_case(run, &id, "fixed", b, i % 16 == 0);
+    }
+    let n = if thorough { 40000 } else { 3000 };
+    for ci in 0..n {
+        let id = format!("dbytes-{ci}");
+        if !wanted(only, &id) {
+            continue;
+        }
+        let mut rng = case_rng(seed, &id);
+        let (b, kind) = if ci % 10 == 9 {
+            let n = rng.range(0, 400) as usize;
+            ((0..n).map(|_| if rng.chance(1, 8) { 0x0A } else { rng.below(256) as u8 }).collect(), "random-bytes")
+        } else {
+            gen_bytes(&mut rng, res)
+        };
+        run.eval(Some(&format!("dbytes|{}", hash64(&hex_bytes(&b)))));
+        dbytes_case(run, &id, kind, &b, ci % 16 == 0);
+    }
+}
+
 fn case_rng(seed: u64, id: &str) -> Rng {
     Rng::new(seed ^ hash64(id))
 }
@@ -860,6 +1052,7 @@ pub fn cases(run: &mut Run, seed: u64, thorough: bool, only: Option<&str>) {
             run.sample(format!("{id}: {lines:?}"));
         }
     }
+    bytes_cases(run, seed, thorough, only, &res);
     for (i, (_, text)) in res.iter().enumerate() {
         let id = format!("dfile-res-{i}");
         if !wanted(only, &id) {
